@@ -157,7 +157,7 @@ def line_number_of(model, w):
         return None
 
 
-def explore_reader(model, cls, nlines=3, max_paths=4000, prev_marker=False):
+def explore_reader(model, cls, nlines=3, max_paths=4000, prev_marker=False, active=None):
     """All paths of cls.read(FileWrapper(lines, start_line=S)); yields (nested calls, result, cursor)."""
     fw = model.cls('block_tokenizer.FileWrapper')
     out = []
@@ -169,6 +169,8 @@ def explore_reader(model, cls, nlines=3, max_paths=4000, prev_marker=False):
         it.reset_run(oracle)
         nested = []
         install(model, it, nested)
+        if active is not None:
+            it.gstate[(PKG + '.block_token', '_token_types')] = list(active)
         lines = [AbsStr(label='line%d' % i) for i in range(nlines)]
         w = it.construct(fw, [lines], {'start_line': S})
         w.peak_line = None      # furthest line_number() reached after any next(): S + k
